@@ -309,3 +309,197 @@ Proof.
   unfold positives at 2. cbn [filter]. rewrite Hpos.
   rewrite last_app_single. exact Hl.
 Qed.
+
+(* ------------------------------------------------------------------ the tone() argument is bounded *)
+Section Bounded.
+  Variable pin : Z.
+  Variable M : Q.
+  Hypothesis M_nonneg : (0 <= M)%Q.
+
+  Let P := tone_le (tone_of M).
+
+  Lemma tone_of_nonneg f : (0 <= f)%Q -> 0 <= tone_of f.
+  Proof.
+    intro H. unfold tone_of. change 0 with (Qfloor 0). apply Qfloor_resp_le.
+    unfold qhalf. lra.
+  Qed.
+
+  Lemma P_tone f : qlt q0 f = true -> (f <= M)%Q -> P (Tone pin (tone_of f)).
+  Proof.
+    intros Hp Hle. cbn. split.
+    - apply tone_of_nonneg. apply Qlt_le_weak. apply qlt_true. exact Hp.
+    - apply tone_of_mono. exact Hle.
+  Qed.
+
+  Lemma clamp0_le x : (x <= M)%Q -> (clamp0 x <= M)%Q.
+  Proof. intro H. unfold clamp0. destruct (qlt x q0); [exact M_nonneg|exact H]. Qed.
+
+  Ltac fb := repeat first [ apply Forall_app; split | apply Forall_nil | assumption
+                          | apply Forall_dl; intro; exact I | apply Forall_qdelay; intro; exact I
+                          | apply Forall_cons; [exact I|] ].
+
+  Lemma sound_le f st : (qlt q0 f = true -> (f <= M)%Q) -> (b_last st <= M)%Q ->
+    Forall P (snd (sound pin f st)) /\ (b_last (fst (sound pin f st)) <= M)%Q.
+  Proof.
+    intros Hf Hl. unfold sound. destruct (qlt q0 f) eqn:E; cbn [start_tone silence quiet fst snd b_last].
+    - split; [apply Forall_cons; [apply P_tone; auto|apply Forall_nil]|auto].
+    - split; [fb|exact Hl].
+  Qed.
+
+  Lemma beep_loop_le target on off k : (qlt q0 target = true -> (target <= M)%Q) ->
+    forall st, (b_last st <= M)%Q ->
+    Forall P (snd (beep_loop pin target on off k st)) /\ (b_last (fst (beep_loop pin target on off k st)) <= M)%Q.
+  Proof.
+    intro Ht. induction k as [|k IH]; intros st Hl; [split; [constructor|exact Hl]|].
+    cbn [beep_loop]. destruct (sound_le target st Ht Hl) as [Hs Hl1].
+    destruct (sound pin target st) as [st1 e1]. cbn [fst snd] in *.
+    destruct (IH (quiet st1) Hl1) as [He3 Hl3].
+    destruct (beep_loop pin target on off k (quiet st1)) as [st3 e3]. cbn [fst snd] in *.
+    split; [|exact Hl3]. destruct k; fb.
+  Qed.
+
+  Lemma sweep_freq_le s e n i : (s <= M)%Q -> (e <= M)%Q -> 1 <= n -> 0 <= i <= n - 1 ->
+    (sweep_freq s e n i <= M)%Q.
+  Proof.
+    intros Hs He Hn Hi. unfold sweep_freq. apply clamp0_le.
+    destruct (n =? 1) eqn:E.
+    - setoid_replace (s + (e - s) * (1 # 1))%Q with e by ring. exact He.
+    - apply Z.eqb_neq in E. destruct (progress_range n i ltac:(lia) Hi) as [H0 H1].
+      set (p := (inject_Z i / (inject_Z n - (1 # 1)))%Q) in *. nra.
+  Qed.
+
+  Lemma sweep_loop_le s e steps sd k : (s <= M)%Q -> (e <= M)%Q -> 1 <= steps ->
+    forall a st, Z.of_nat a + Z.of_nat k <= steps -> (b_last st <= M)%Q ->
+    Forall P (snd (sweep_loop pin s e steps sd k (Z.of_nat a) st)) /\
+    (b_last (fst (sweep_loop pin s e steps sd k (Z.of_nat a) st)) <= M)%Q.
+  Proof.
+    intros Hs He Hn. induction k as [|k IH]; intros a st Hr Hl; [split; [constructor|exact Hl]|].
+    cbn [sweep_loop].
+    assert (Hf : qlt q0 (sweep_freq s e steps (Z.of_nat a)) = true -> (sweep_freq s e steps (Z.of_nat a) <= M)%Q).
+    { intros _. apply sweep_freq_le; try assumption. lia. }
+    destruct (sound_le _ st Hf Hl) as [Hs1 Hl1].
+    destruct (sound pin (sweep_freq s e steps (Z.of_nat a)) st) as [st1 e1]. cbn [fst snd] in *.
+    replace (Z.of_nat a + 1) with (Z.of_nat (S a)) by lia.
+    destruct (IH (S a) st1 ltac:(lia) Hl1) as [He3 Hl3].
+    destruct (sweep_loop pin s e steps sd k (Z.of_nat (S a)) st1) as [st2 e3]. cbn [fst snd] in *.
+    split; [|exact Hl3]. fb.
+  Qed.
+
+  Lemma melody_loop_le beat seq : notes_le M seq = true ->
+    forall st, (b_last st <= M)%Q ->
+    Forall P (snd (melody_loop pin beat seq st)) /\ (b_last (fst (melody_loop pin beat seq st)) <= M)%Q.
+  Proof.
+    induction seq as [|[f b] r IH]; intros Hn st Hl; [split; [constructor|exact Hl]|].
+    cbn [notes_le forallb fst] in Hn. apply andb_true_iff in Hn as [Hf Hr]. apply qle_true in Hf.
+    cbn [melody_loop]. destruct (qle f q0) eqn:Ef.
+    - destruct (IH Hr (quiet st) Hl) as [H2 L2].
+      destruct (melody_loop pin beat r (quiet st)) as [st2 e2]. cbn [fst snd] in *.
+      split; [|exact L2]. fb.
+    - destruct (IH Hr (quiet (fst (start_tone pin f st))) Hf) as [H2 L2].
+      destruct (melody_loop pin beat r (quiet (fst (start_tone pin f st)))) as [st2 e2]. cbn [fst snd start_tone] in *.
+      split; [|exact L2].
+      assert (Hp : qlt q0 f = true) by (rewrite qle_qlt in Ef; apply negb_false_iff in Ef; exact Ef).
+      apply Forall_app; split; [|exact H2].
+      apply Forall_app; split; [apply Forall_cons; [apply P_tone; assumption|apply Forall_nil]|fb].
+  Qed.
+
+  Lemma notes_le_lookup (tbl : list (text * score)) : table_le M tbl = true ->
+    forall k t0 seq, tlookup k tbl = Some (t0, seq) -> notes_le M seq = true.
+  Proof.
+    intro H. induction tbl as [|[k' [t s]] r IH]; intros k t0 seq Hl; [discriminate|].
+    cbn [table_le forallb snd] in H. apply andb_true_iff in H as [H1 H2]. cbn [tlookup] in Hl.
+    destruct (text_eqb k k').
+    - inversion Hl; subst. exact H1.
+    - apply (IH H2 _ _ _ Hl).
+  Qed.
+
+  Lemma dstep_le neg tbl st o : table_le M tbl = true -> freq_le M o = true -> (b_last st <= M)%Q ->
+    Forall P (snd (dstep pin neg tbl st o)) /\ (b_last (fst (dstep pin neg tbl st o)) <= M)%Q.
+  Proof.
+    intros Ht Ho Hl. destruct o as [f dur| |f on off times|s e dq steps|name tempo]; cbn [freq_le] in Ho.
+    - apply qle_true in Ho.
+      destruct (qlt q0 f) eqn:E.
+      + destruct (play_tone_protocol pin neg tbl st f (match dur with Some d => d | None => q0 end)) as [Hp _].
+        destruct (Hp E) as [H1 H2].
+        destruct dur as [d|].
+        * rewrite H2. cbn [fst snd b_last]. split; [|exact Ho].
+          apply Forall_app; split; [apply Forall_cons; [apply P_tone; assumption|apply Forall_nil]|fb].
+        * rewrite H1. cbn [fst snd b_last]. split; [|exact Ho].
+          apply Forall_cons; [apply P_tone; assumption|apply Forall_nil].
+      + assert (E' : qle f q0 = true) by (rewrite qle_qlt, E; reflexivity).
+        destruct (play_tone_protocol pin neg tbl st f (match dur with Some d => d | None => q0 end)) as [_ Hp].
+        destruct (Hp E') as [H1 H2].
+        destruct dur as [d|].
+        * rewrite H2. cbn [fst snd quiet b_last]. split; [fb|exact Hl].
+        * rewrite H1. cbn [fst snd quiet b_last]. split; [fb|exact Hl].
+    - cbn [dstep stop silence fst snd quiet b_last]. split; [fb|exact Hl].
+    - cbn [dstep]. unfold beep. apply beep_loop_le; [|exact Hl].
+      intros _. apply clamp0_le. destruct f as [f|]; [apply qle_true; exact Ho|exact Hl].
+    - apply andb_true_iff in Ho as [Hs He]. apply qle_true in Hs. apply qle_true in He.
+      cbn [dstep]. unfold sweep.
+      destruct (sweep_loop_le (clamp0 s) (clamp0 e) (Z.max 1 (c_int steps))
+                  (inject_Z (c_ulong neg dq) / inject_Z (Z.max 1 (c_int steps)))%Q
+                  (Z.to_nat (Z.max 1 (c_int steps))) (clamp0_le _ Hs) (clamp0_le _ He) ltac:(lia)
+                  0%nat st ltac:(lia) Hl) as [H1 L1].
+      change (Z.of_nat 0) with 0 in *.
+      destruct (sweep_loop pin (clamp0 s) (clamp0 e) (Z.max 1 (c_int steps))
+                  (inject_Z (c_ulong neg dq) / inject_Z (Z.max 1 (c_int steps)))%Q
+                  (Z.to_nat (Z.max 1 (c_int steps))) 0 st) as [st1 e1].
+      cbn [fst snd quiet b_last] in *. split; [fb|exact L1].
+    - cbn [dstep]. unfold melody, score in *. destruct (tlookup name tbl) as [[t0 seq]|] eqn:El.
+      + apply melody_loop_le; [|exact Hl]. apply (notes_le_lookup tbl Ht name t0 seq El).
+      + cbn [fst snd]. split; [constructor|exact Hl].
+  Qed.
+
+  Lemma run_le neg tbl ops : table_le M tbl = true -> forall st,
+    forallb (freq_le M) ops = true -> (b_last st <= M)%Q ->
+    Forall P (snd (run pin neg tbl st ops)).
+  Proof.
+    intro Ht. induction ops as [|o r IH]; intros st Ho Hl; [constructor|].
+    cbn [forallb] in Ho. apply andb_true_iff in Ho as [Ho Hr].
+    cbn [run]. destruct (dstep_le neg tbl st o Ht Ho Hl) as [H1 L1].
+    destruct (dstep pin neg tbl st o) as [st1 e1]. cbn [fst snd] in *.
+    specialize (IH st1 Hr L1).
+    destruct (run pin neg tbl st1 r) as [st2 e2]. cbn [fst snd] in *.
+    apply Forall_app; split; assumption.
+  Qed.
+End Bounded.
+
+(* C16_tone_value_bounded *)
+Lemma tone_value_bounded : forall pin neg tbl M default ops,
+  (0 <= M)%Q -> table_le M tbl = true -> qle default M = true -> forallb (freq_le M) ops = true ->
+  Forall (tone_le (tone_of M)) (snd (run pin neg tbl (init default) ops)).
+Proof.
+  intros pin neg tbl M default ops HM Ht Hd Ho.
+  apply run_le; try assumption. cbn. apply qle_true. exact Hd.
+Qed.
+
+Lemma generated_table_fits : table_le (Qmake 65535 1) emitter_melodies = true.
+Proof. vm_compute. reflexivity. Qed.
+
+(* C16_tone_fits_16_bits: on the generated table, with every frequency argument and default_frequency
+   <= 65535 the argument of every tone() is below 2^16 (the unsigned int of an AVR does not wrap) *)
+Lemma tone_fits_16_bits : forall pin neg default ops,
+  qle default (Qmake 65535 1) = true -> forallb (freq_le (Qmake 65535 1)) ops = true ->
+  Forall (fun e => match e with Tone _ t => 0 <= t < 2 ^ 16 | _ => True end)
+         (snd (run pin neg emitter_melodies (init default) ops)).
+Proof.
+  intros pin neg default ops Hd Ho.
+  assert (HM : (0 <= Qmake 65535 1)%Q) by (unfold Qle; cbn; lia).
+  pose proof (tone_value_bounded pin neg emitter_melodies (Qmake 65535 1) default ops HM
+                generated_table_fits Hd Ho) as H.
+  eapply Forall_impl; [|exact H].
+  intros [p t|p|d]; cbn [tone_le]; auto. intros [H0 H1].
+  assert (E : tone_of (65535 # 1) = 65535) by (vm_compute; reflexivity).
+  rewrite E in H1. split; [exact H0|]. change (2 ^ 16) with 65536. lia.
+Qed.
+
+(* the guard is needed: play_tone(65536) asks for tone(pin, 65536) *)
+Lemma tone_fits_16_bits_guard_needed :
+  exists pin neg default ops,
+    Exists (fun e => match e with Tone _ t => 2 ^ 16 <= t | _ => False end)
+           (snd (run pin neg emitter_melodies (init default) ops)).
+Proof.
+  exists 8, neg_literal, (Qmake 440 1), [PlayTone (Qmake 65536 1) None].
+  vm_compute. apply Exists_cons_hd. discriminate.
+Qed.
